@@ -9,6 +9,7 @@ import GA.Drv.HeapE
 import GA.Drv.SerdeE
 import GA.Drv.CmpE
 import GA.Drv.FillE
+import GA.Drv.ArrE
 open GA.Drv
 
 def answerLine (line : String) : String :=
@@ -29,6 +30,8 @@ def answerLine (line : String) : String :=
       | "serde" => SerdeE.answer kv
       | "cmp" => CmpE.answer kv
       | "fill" => FillE.answer kv
+      | "arrmac" => ArrE.answer kv
+      | "arrconst" => ArrE.answer kv
       | _ => "bad-engine"
     s!"{seq} {body}"
   | _ => "bad-line"
